@@ -6,7 +6,7 @@
 //     per isready, whole lines only, Run returns after quit/EOF, no goroutine left, no panic, no
 //     data race)                                              -> mismatch kind "failing-input"
 //   - asks the Lean trace acceptor (drv_uci) whether the model of uci.go admits the trace
-//                                                              -> "broken-correspondence"
+//     -> "broken-correspondence"
 //
 // The harness is reactive: go (and every other non-async line) is only written after the previous
 // bestmove was read; stop, isready, ponderhit, quit and EOF are written at swept points.
@@ -946,7 +946,7 @@ func main() {
 	ctx := common.Parse()
 	res := common.NewResult(ctx, "uci", "C13")
 	res.Rule = "a run in which stop/isready/ponderhit/quit/EOF was written while a bestmove was outstanding (distinct recorded traces)"
-	nScripts := ctx.Pick(300, 20000)
+	nScripts := ctx.Pick(300, 12000) // x 8 timings; 20 000 scripts measured 731 s idle, 972 s at load 90
 	if *scripts > 0 {
 		nScripts = *scripts
 	}
